@@ -337,10 +337,10 @@ func init() { Registry["C09"] = C09 }
 // C09: at most one case of a choice holds data - schemas with choices (several per container,
 // nested in cases, inside lists), histories of upserts alternating between cases.
 func C09(ctx *core.Ctx) error {
-	ctx.Imports = "Val.Model Tree.Schema Tree.Editor Check.C03Check Check.C09Check"
+	ctx.Imports = "Val.Model Tree.Schema Tree.Editor Tree.ReflectChoose Check.C03Check Check.C09Check"
 	caseWrap = "CHist"
 	defer func() { caseWrap = "" }()
-	ctx.Rule = "history = generated schema with choices (several per container, nested in cases, inside lists, cases holding leaves, containers and lists) x 1..6 successive upserts (From/Into, root/container/list-entry entry points) of independently generated conforming sources into one target; each step is one case (target before, source, observed target after); PLUS stream list-switch: schemas in which a list holds a choice in its entries, targets with 2..4 entries, ONE upsert whose source addresses most entries by key and moves them to the same other case; PLUS stream node-target: upsert histories (2..5 steps, From/Into at the root) on nodeutil.Node over Go maps (string-keyed lists, leaf types int32/int64/uint8/string/boolean/decimal64, leaf-lists, defaults), values biased to the zero value of their type (false, 0, \"\"), observed twice per step: what the maps hold (no library call) and what a read through the target's own Choose reports; distinct by SHA-256; non-trivial = source holds data"
+	ctx.Rule = "history = generated schema with choices (several per container, nested in cases, inside lists, cases holding leaves, containers and lists) x 1..6 successive upserts (From/Into, root/container/list-entry entry points) of independently generated conforming sources into one target; each step is one case (target before, source, observed target after); PLUS stream list-switch: schemas in which a list holds a choice in its entries, targets with 2..4 entries, ONE upsert whose source addresses most entries by key and moves them to the same other case; PLUS stream node-target: upsert histories (2..5 steps, From/Into at the root) on nodeutil.Node over Go maps (string-keyed lists, leaf types int32/int64/uint8/string/boolean/decimal64, leaf-lists, defaults), values biased to the zero value of their type (false, 0, \"\"), observed twice per step: what the maps hold (no library call) and what a read through the target's own Choose reports; PLUS stream reflect-target: upsert histories (3..5 steps, From/Into at the root) on the Reflect map node (nodeutil.ReflectChild over Go maps) on schemas built around choices nested in cases (a case = data definitions and nested choices in any order, up to three levels, explicit and shorthand cases, case names not in declaration order, the same inside containers and list entries), each step either staying on the selected cases (filling them further, switching nested cases) or moving to other cases, observed three times per step: what the maps hold, what a read reports, what Choose answers for every choice of the root container; distinct by SHA-256; non-trivial = source holds data"
 	r := gen.New(ctx.Seed)
 	opts := tree.GenOpts{MaxDepth: 2, MaxKids: 3, Lists: true, Defaults: true, LeafLists: true, Choices: true, ChoiceHeavy: true}
 	count := ctx.Scale(50, 1200)
@@ -381,5 +381,8 @@ func C09(ctx *core.Ctx) error {
 	if err := c09ListSwitch(ctx, r.Fork(909), ctx.Scale(14, 400)); err != nil {
 		return err
 	}
-	return c09NodeTargets(ctx, r.Fork(910), ctx.Scale(16, 400))
+	if err := c09NodeTargets(ctx, r.Fork(910), ctx.Scale(16, 400)); err != nil {
+		return err
+	}
+	return c09ReflectTargets(ctx, r.Fork(911), ctx.Scale(14, 400))
 }
